@@ -114,6 +114,7 @@ type SpecLemma struct {
 	Ensures  []Expr
 	Assumed  bool
 	Induct   string // proved by induction on this int parameter (n = 0, then n -> n+1), "" otherwise
+	Uses     []UseHint // other lemmas instantiated inside the proof of an inductive lemma
 	Src      string
 	File     string
 	Line     int
@@ -569,6 +570,12 @@ func (w *World) loadSpecFile(path, pkg string) error {
 					lm.Ensures = append(lm.Ensures, e)
 				case part == "proved":
 					lm.Assumed = false
+				case strings.HasPrefix(part, "use "):
+					u, err := parseUse(strings.TrimSpace(part[len("use "):]), r.file, r.line)
+					if err != nil {
+						return fail("%v", err)
+					}
+					lm.Uses = append(lm.Uses, u)
 				case strings.HasPrefix(part, "induction "):
 					lm.Induct = strings.TrimSpace(part[len("induction "):])
 					lm.Assumed = false
